@@ -391,8 +391,10 @@ func (p *Process) waitUntilLogReady() bool {
 
 }
 
-func (p *Process) wontRun() {
-	p.onProcessEnd(types.ProcessStateSkipped)
+// wontRun reports whether it ended this instance as Skipped (false: the
+// instance had been ended before, e.g. stopped while it was pending)
+func (p *Process) wontRun() bool {
+	return p.onProcessEnd(types.ProcessStateSkipped)
 }
 
 // perform graceful process shutdown if defined in configuration
@@ -513,12 +515,12 @@ func (p *Process) onProcessStart() {
 	close(p.procStartedChan)
 }
 
-func (p *Process) onProcessEnd(state string) {
+func (p *Process) onProcessEnd(state string) bool {
 	// an instance ends exactly once: a process stopped before launch is ended
 	// by the stop request, and must not touch the (shared) state again when
 	// its goroutine eventually wakes up - a newer instance may own it by then
 	if !p.isEnded.CompareAndSwap(false, true) {
-		return
+		return false
 	}
 	if isStringDefined(p.procConf.LogLocation) {
 		p.logger.Close()
@@ -545,6 +547,7 @@ func (p *Process) onProcessEnd(state string) {
 	p.done = true
 	p.Unlock()
 	p.procCond.Broadcast()
+	return true
 }
 
 func (p *Process) getLogPath() string {
